@@ -51,6 +51,196 @@ def run_query(node, q):
         return ["err", "Other:" + type(e).__name__]
 
 
+# ---------------------------------------------------------------------------------------------------
+# operation shapes: a harness-side description of an operation whose outputs are determined.  The real
+# operation is built from it (build_shape), the Gallina literal from the same description (gshape), and the
+# expected count is computed by the Coq spec (value_outputs) -- never read from the implementation.
+#   ["sig", api, op, nin, nout]     op in custom|callind|callind_infer, api in add_op|add|extend
+#   ["unpack", api, k, given]       UnpackTuple of a k-tuple, types given or inferred
+#   ["pack", api, op, k]            op in maketuple|tag
+#   ["unary", op]                   noop_add_op|noop_add|load
+#   ["call", fn, params, body_in, body_out, arglens]
+#        fn in declare|define; params: list of "T"|"R"; rows: lists of "t" | ["v", i] | ["r", i];
+#        arglens[i]: None for a type parameter, the length of the sequence argument for a row parameter
+#   ["dfg"|"cfg"|"cond", how, k]    how in add|insert; outputs set to k wires
+#   ["loop", how, jout, rest]
+def inst_row(row, arglens):
+    """Number of types of `row` after substituting the type arguments (harness-side; Coq recomputes it)."""
+    return sum(1 if (it == "t" or it[0] == "v") else arglens[it[1]] for it in row)
+
+
+def gshape(sh):
+    k = sh[0]
+    if k == "sig":
+        return gapp("SSig", gZ(sh[3]), gZ(sh[4]))
+    if k == "unpack":
+        return gapp("SUnpack", gZ(sh[2]))
+    if k == "pack":
+        return gapp("SPack", gZ(sh[3]))
+    if k == "unary":
+        return "SUnary"
+    if k == "call":
+        def it(x):
+            return "RTy" if x == "t" else gapp("RVar" if x[0] == "v" else "RRow", fw.gnat(x[1]))
+        args = ["ATy" if p == "T" else gapp("ASeq", fw.gnat(l)) for p, l in zip(sh[2], sh[5])]
+        return gapp("SCall", glist(it(x) for x in sh[4]), glist(args), gZ(inst_row(sh[4], sh[5])))
+    if k in ("dfg", "cfg", "cond"):
+        return gapp("SDfg", gZ(sh[2]))
+    if k == "loop":
+        return gapp("SLoop", gZ(sh[2]), gZ(sh[3]))
+    raise AssertionError(sh)
+
+
+def build_shape(sh):
+    """Builds the operation with hugr-py's builders; returns the handle the builder hands out."""
+    from hugr import ops, tys, val
+    from hugr.build.dfg import Dfg
+    from hugr.build.cfg import Cfg
+    from hugr.build.cond_loop import Conditional, TailLoop
+    from hugr.build.function import Module
+    B = tys.Bool
+    k = sh[0]
+
+    def via(d, api, op, wires):
+        if api == "add_op":
+            return d.add_op(op, *wires)
+        if api == "add":
+            return d.add(op(*wires))
+        return d.extend(ops.Noop()(d.inputs()[0]), op(*wires))[1]
+
+    if k == "sig":
+        _, api, which, nin, nout = sh
+        ft = tys.FunctionType([B] * nin, [B] * nout)
+        if which == "custom":
+            d = Dfg(B)
+            return via(d, api, ops.Custom("c16.op", ft, extension="c16"), [d.inputs()[0]] * nin)
+        d = Dfg(ft, B)
+        op = ops.CallIndirect(ft) if which == "callind" else ops.CallIndirect()
+        return via(d, api, op, [d.inputs()[0]] + [d.inputs()[1]] * nin)
+    if k == "unpack":
+        _, api, n, given = sh
+        d = Dfg(tys.Tuple(*[B] * n))
+        return via(d, api, ops.UnpackTuple([B] * n) if given else ops.UnpackTuple(), [d.inputs()[0]])
+    if k == "pack":
+        _, api, which, n = sh
+        d = Dfg(B)
+        op = ops.MakeTuple() if which == "maketuple" else ops.Tag(0, tys.Sum([[B] * n]))
+        return via(d, api, op, [d.inputs()[0]] * n)
+    if k == "unary":
+        d = Dfg(B)
+        if sh[1] == "load":
+            return d.load(val.TRUE)
+        return via(d, "add_op" if sh[1] == "noop_add_op" else "add", ops.Noop(), [d.inputs()[0]])
+    if k == "call":
+        _, fn, params, body_in, body_out, arglens = sh
+        any_ = tys.TypeBound.Any
+
+        def ty(it):
+            if it == "t":
+                return B
+            return tys.Variable(it[1], any_) if it[0] == "v" else tys.RowVariable(it[1], any_)
+        tparams = [tys.TypeTypeParam(any_) if p == "T" else tys.ListParam(tys.TypeTypeParam(any_)) for p in params]
+        body = tys.FunctionType([ty(x) for x in body_in], [ty(x) for x in body_out])
+        m = Module()
+        if fn == "declare":
+            f = m.declare_function("f", tys.PolyFuncType(tparams, body))
+        else:
+            f = m.define_function("f", body.input, body.output, tparams)
+        g = m.define_function("g", [B])
+        n_in = inst_row(body_in, arglens)
+        wires = [g.inputs()[0]] * n_in
+        if not params:
+            return g.call(f, *wires)
+        inst = tys.FunctionType([B] * n_in, [B] * inst_row(body_out, arglens))
+        targs = [B.type_arg() if p == "T" else tys.SequenceArg([B.type_arg()] * l) for p, l in zip(params, arglens)]
+        return g.call(f, *wires, instantiation=inst, type_args=targs)
+    how, n = sh[1], sh[2]
+    if k == "dfg":
+        d = Dfg(B)
+        if how == "add":
+            inner = d.add_nested(d.inputs()[0])
+            inner.set_outputs(*[inner.inputs()[0]] * n)
+            return inner.parent_node
+        inner = Dfg(B)
+        inner.set_outputs(*[inner.inputs()[0]] * n)
+        return d.insert_nested(inner, d.inputs()[0])
+    if k == "cfg":
+        d = Dfg(B)
+        cfg = d.add_cfg(d.inputs()[0]) if how == "add" else Cfg(B)
+        with cfg.add_entry() as e:
+            e.set_single_succ_outputs(*[e.inputs()[0]] * n)
+        cfg.branch_exit(e[0])
+        return cfg.parent_node if how == "add" else d.insert_cfg(cfg, d.inputs()[0])
+    if k == "cond":
+        d = Dfg(B, B)
+        c = d.add_conditional(*d.inputs()) if how == "add" else Conditional(B, [B])
+        for i in (0, 1):
+            with c.add_case(i) as ci:
+                ci.set_outputs(*[ci.inputs()[0]] * n)
+        return c.parent_node if how == "add" else d.insert_conditional(c, *d.inputs())
+    if k == "loop":
+        _, how, jout, rest = sh
+        d = Dfg(B, B)
+        i0, i1 = d.inputs()
+        tl = d.add_tail_loop([i0], [i1] * rest) if how == "add" else TailLoop([B], [B] * rest)
+        sum_v = val.Sum(1, tys.Sum([[B], [B] * jout]), [val.TRUE] * jout)
+        tl.set_loop_outputs(tl.load(sum_v), *tl.inputs()[1:])
+        return tl.parent_node if how == "add" else d.insert_tail_loop(tl, [i0], [i1] * rest)
+    raise AssertionError(sh)
+
+
+def gen_shape(rng):
+    cnt = lambda: rng.choice([0, 0, 1, 1, 2, 3, 4, 5, rng.randint(6, 12)])
+    api = lambda: rng.choice(["add_op", "add", "extend"])
+    how = lambda: rng.choice(["add", "insert"])
+    r = rng.random()
+    if r < 0.45:
+        params = [rng.choice("TR") for _ in range(rng.choice([0, 1, 1, 1, 2, 2, 3]))]
+        arglens = [None if p == "T" else rng.choice([0, 0, 1, 2, 3, 5]) for p in params]
+
+        def row():
+            items = ["t"] + [["v" if p == "T" else "r", i] for i, p in enumerate(params)]
+            rows = [x for x in items if x != "t" and x[0] == "r"]
+            out = []
+            for _ in range(rng.choice([0, 1, 1, 2, 2, 3, 4])):
+                out.append(rng.choice(rows) if rows and rng.random() < 0.5 else rng.choice(items))
+            return out
+        return ["call", rng.choice(["declare", "define"]), params, row(), row(), arglens]
+    if r < 0.57:
+        return ["sig", api(), rng.choice(["custom", "callind", "callind_infer"]), rng.randint(0, 3), cnt()]
+    if r < 0.65:
+        return ["unpack", api(), cnt(), rng.random() < 0.5]
+    if r < 0.71:
+        return ["pack", api(), rng.choice(["maketuple", "tag"]), rng.randint(0, 4)]
+    if r < 0.75:
+        return ["unary", rng.choice(["noop_add_op", "noop_add", "load"])]
+    if r < 0.93:
+        return [rng.choice(["dfg", "cfg", "cond"]), how(), cnt()]
+    return ["loop", how(), rng.randint(0, 4), rng.randint(0, 4)]
+
+
+def shape_count(sh):
+    """Harness-side count, used only to aim queries at the interesting offsets and for statistics."""
+    k = sh[0]
+    return {"sig": lambda: sh[4], "unpack": lambda: sh[2], "pack": lambda: 1, "unary": lambda: 1,
+            "call": lambda: inst_row(sh[4], sh[5]), "dfg": lambda: sh[2], "cfg": lambda: sh[2],
+            "cond": lambda: sh[2], "loop": lambda: sh[2] + sh[3]}[k]()
+
+
+def gen_query(rng, n):
+    r = rng.random()
+    if r < 0.3:
+        return ["iter"]
+    if r < 0.6:
+        return ["int", rng.choice([n - 1, n, -n, -n - 1, -1, 0, rng.randint(-n - 2, n + 2)])]
+    if r < 0.8:
+        b = lambda: rng.choice([None, rng.randint(-n - 2, n + 3)])
+        return ["slice", b(), b(), rng.choice([None, 1, 2, 3])]
+    if r < 0.9:
+        return ["outputs"]
+    return ["tuple", [rng.randint(-n - 1, n + 1) for _ in range(rng.randint(0, 3))]]
+
+
 class C16(fw.Prop):
     id = "C16"
     props_file = "props/C16.v"
@@ -62,11 +252,32 @@ class C16(fw.Prop):
             "returned by add_node with/without explicit count inside add/delete histories (index reuse), and "
             "by Dfg builder calls (add_op/add/extend/load/call/load_function/add_nested/insert_nested/"
             "add_cfg/insert_cfg/add_conditional/insert_conditional/add_tail_loop/insert_tail_loop), with n "
-            "taken as the operation's num_out; port equality/hash pairs. non-trivial = query with a negative, "
+            "declared by the scenario; generated operation shapes (Custom / CallIndirect with random signatures, "
+            "UnpackTuple / MakeTuple / Tag of k values, Noop, load, call of declared / defined functions that are "
+            "monomorphic, polymorphic in types and polymorphic in rows with sequence arguments of length 0..5 -- the "
+            "instantiation has more or fewer outputs than the body's row --, nested Dfg / Cfg / Conditional / "
+            "TailLoop added or inserted with 0..12 outputs) through add_op / add / extend / call / load / "
+            "insert_*, where the expected count is computed by the Coq spec (value_outputs) from the shape and "
+            "never read from the implementation; port equality/hash pairs. non-trivial = query with a negative, "
             "overflowing or below -n bound, step>1, an unknown count, or a handle produced by a builder/history")
-    trusted = ["for builder handles the expected count is read from the implementation's own op.num_out "
-               "(C06 decides whether num_out itself is right); where num_out is not an int the number of outputs "
-               "of outer_signature() is used"]
+    trusted = ["builder handles: the harness builds the real operation and the Gallina shape from one description "
+               "(harness/props/c16.py build_shape / gshape); the expected count comes from the shape (spec "
+               "value_outputs; for the fixed scenarios a literal), not from op.num_out"]
+
+    def corpus(self, ctx):
+        # seeded round 2 (C16-d): `call` of a function polymorphic over a row of types, where the
+        # instantiation has more / fewer outputs than the polymorphic body's output row
+        rot = lambda fn, l: ["call", fn, ["R"], ["t", ["r", 0]], [["r", 0], "t"], [l]]
+        return [
+            {"kind": "bop", "shape": ["call", "declare", ["R"], [], [["r", 0]], [2]], "q": ["iter"]},
+            {"kind": "bop", "shape": rot("declare", 3), "q": ["iter"]},
+            {"kind": "bop", "shape": rot("declare", 3), "q": ["int", -1]},
+            {"kind": "bop", "shape": rot("declare", 3), "q": ["slice", 1, 99, 2]},
+            {"kind": "bop", "shape": rot("define", 0), "q": ["int", 1]},
+            {"kind": "bop", "shape": rot("define", 0), "q": ["iter"]},
+            {"kind": "bop", "shape": ["call", "declare", ["T", "R"], [["v", 0]], [["v", 0], ["r", 1], ["r", 1]], [None, 2]],
+             "q": ["outputs"]},
+        ]
 
     def generate(self, rng, tier, ctx):
         cases = []
@@ -119,6 +330,11 @@ class C16(fw.Prop):
             a = [rng.randint(0, 3), rng.randint(-1, 2), rng.random() < 0.5]
             b = rng.choice([list(a), [rng.randint(0, 3), rng.randint(-1, 2), rng.random() < 0.5]])
             cases.append({"kind": "porteq", "a": a, "b": b, "va": rng.randint(0, 3), "vb": rng.randint(0, 3)})
+        # generated operation shapes through every builder entry point; the expected count is computed by the
+        # spec from the shape (drawn last: the streams above stay as they were)
+        for _ in range(600 if tier == "quick" else 6000):
+            sh = gen_shape(rng)
+            cases.append({"kind": "bop", "shape": sh, "q": gen_query(rng, shape_count(sh))})
         return cases
 
     def observe(self, case, ctx):
@@ -160,6 +376,9 @@ class C16(fw.Prop):
         if k == "builder":
             node, n = BUILDER_SCENARIOS[case["scenario"]]()
             return {"idx": node.idx, "n": n, "r": run_query(node, case["q"])}
+        if k == "bop":
+            node = build_shape(case["shape"])
+            return {"idx": node.idx, "r": run_query(node, case["q"])}
         if k == "porteq":
             def mk(p, variant):
                 idx, off, inc = p
@@ -173,10 +392,12 @@ class C16(fw.Prop):
         if case["kind"] == "porteq":
             gp = lambda p: gpair(gZ(p[0]), gZ(p[1]), gbool(p[2]))
             return gapp("CPortEq", gp(case["a"]), gp(case["b"]), gbool(obs["eq"]), gbool(obs["hash_eq"]))
+        if case["kind"] == "bop":
+            return gapp("CBuilder", gZ(obs["idx"]), gshape(case["shape"]), gquery(case["q"]), gres(obs["r"]))
         return gapp("CIndex", gZ(obs["idx"]), goz(obs["n"]), gquery(case["q"]), gres(obs["r"]))
 
     def nontrivial(self, case, obs):
-        if case["kind"] in ("history", "builder"):
+        if case["kind"] in ("history", "builder", "bop"):
             return True
         if case["kind"] == "porteq":
             return case["a"] != case["b"] or case["va"] != case["vb"]
@@ -193,17 +414,45 @@ class C16(fw.Prop):
         return {"input": case, "observed": obs}
 
     def signature(self, case, obs, ctx):
-        return "nodeindex:" + case["kind"] + ":" + (case.get("q") or ["eq"])[0]
+        kind = case["kind"] + ("-" + case["shape"][0] if case["kind"] == "bop" else "")
+        return "nodeindex:" + kind + ":" + (case.get("q") or ["eq"])[0]
 
     def shrink(self, case):
         if case["kind"] == "history":
             for i in range(len(case["steps"])):
                 yield {**case, "steps": case["steps"][:i] + case["steps"][i + 1:]}
+        if case["kind"] == "bop":
+            sh = case["shape"]
+            if sh[0] == "call":
+                _, fn, params, bi, bo, al = sh
+                if fn != "declare":
+                    yield {**case, "shape": ["call", "declare", params, bi, bo, al]}
+                for i in range(len(bi)):
+                    yield {**case, "shape": ["call", fn, params, bi[:i] + bi[i + 1:], bo, al]}
+                for i in range(len(bo)):
+                    yield {**case, "shape": ["call", fn, params, bi, bo[:i] + bo[i + 1:], al]}
+                for i, l in enumerate(al):
+                    if l:
+                        yield {**case, "shape": ["call", fn, params, bi, bo, al[:i] + [l - 1] + al[i + 1:]]}
+            else:
+                for i in range(2, len(sh)):
+                    if isinstance(sh[i], int) and not isinstance(sh[i], bool) and sh[i] > 0:
+                        yield {**case, "shape": sh[:i] + [sh[i] - 1] + sh[i + 1:]}
+            if case["q"] != ["iter"]:
+                yield {**case, "q": ["iter"]}
+
+    def neighbours(self, case, rng):
+        if case["kind"] == "bop":
+            n = shape_count(case["shape"])
+            for q in (["iter"], ["outputs"], ["int", -1], ["int", n - 1], ["int", n], ["slice", None, None, None]):
+                yield {**case, "q": q}
+            for _ in range(30):
+                yield {**case, "q": gen_query(rng, n)}
 
     def distribution(self, cases, observations):
         d = {}
         for c, o in zip(cases, observations):
-            key = c["kind"] + ":" + (c.get("q") or ["eq"])[0]
+            key = c["kind"] + ("-" + c["shape"][0] if c["kind"] == "bop" else "") + ":" + (c.get("q") or ["eq"])[0]
             d.setdefault(key, {"n": 0, "errors": 0})
             d[key]["n"] += 1
             if "r" in o and o["r"][0] == "err":
@@ -220,12 +469,10 @@ def _scenarios():
     from hugr.std.int import DivMod, INT_T
     from hugr.std.logic import Not
 
-    def num_out(h, n):
-        op = h.hugr[n].op
-        v = op.num_out
-        # LoadFunc.num_out is a dataclasses.Field on the original tree (C06's concern); the count the
-        # handle must know is the number of value outputs of the operation's signature
-        return v if isinstance(v, int) else len(op.outer_signature().output)
+    def num_out(h, n, declared):
+        # the expected count is what the scenario itself declares (Not: 1 value output, DivMod: 2, ...),
+        # never the implementation's op.num_out
+        return declared
 
     S = []
 
@@ -237,37 +484,37 @@ def _scenarios():
     def add_op_not():
         d = Dfg(tys.Bool)
         n = d.add_op(Not, d.inputs()[0])
-        return n, num_out(d, n)
+        return n, num_out(d, n, 1)
 
     @sc
     def add_divmod():
         d = Dfg(INT_T, INT_T)
         n = d.add(DivMod(*d.inputs()))
-        return n, num_out(d, n)
+        return n, num_out(d, n, 2)
 
     @sc
     def extend_two():
         d = Dfg(tys.Bool, tys.Qubit)
         ns = d.extend(ops.Noop()(d.inputs()[0]), ops.MakeTuple()(*d.inputs()))
-        return ns[1], num_out(d, ns[1])
+        return ns[1], num_out(d, ns[1], 1)
 
     @sc
     def unpack():
         d = Dfg(tys.Tuple(tys.Bool, tys.Qubit, tys.Bool))
         n = d.add(ops.UnpackTuple()(d.inputs()[0]))
-        return n, num_out(d, n)
+        return n, num_out(d, n, 3)
 
     @sc
     def unpack_empty():
         d = Dfg(tys.Tuple())
         n = d.add(ops.UnpackTuple()(d.inputs()[0]))
-        return n, num_out(d, n)
+        return n, num_out(d, n, 0)
 
     @sc
     def load_const():
         d = Dfg()
         n = d.load(val.TRUE)
-        return n, num_out(d, n)
+        return n, num_out(d, n, 1)
 
     @sc
     def call_mono():
@@ -276,7 +523,7 @@ def _scenarios():
         f.set_outputs(f.inputs()[0], f.inputs()[0])
         g = m.define_function("g", [tys.Bool])
         n = g.call(f, g.inputs()[0])
-        return n, num_out(g, n)
+        return n, num_out(g, n, 2)
 
     @sc
     def call_zero_out():
@@ -285,7 +532,7 @@ def _scenarios():
         f.set_outputs()
         g = m.define_function("g", [tys.Bool])
         n = g.call(f, g.inputs()[0])
-        return n, num_out(g, n)
+        return n, num_out(g, n, 0)
 
     @sc
     def load_func():
@@ -294,7 +541,7 @@ def _scenarios():
         f.set_outputs(f.inputs()[0])
         g = m.define_function("g", [])
         n = g.load_function(f)
-        return n, None if n._num_out_ports is None else num_out(g, n)
+        return n, None if n._num_out_ports is None else num_out(g, n, 1)
 
     @sc
     def nested_add():
